@@ -5,4 +5,5 @@ export GOFLAGS=-mod=mod GOPROXY=off GOSUMDB=off GOTOOLCHAIN=local
 cd /verif
 ./build.sh
 ./build.sh race
+(cd mc && go test ./vrt/ -run Conform -count=1)
 echo "setup ok"
